@@ -40,6 +40,11 @@ RULE = (
     "distinct_nontrivial = distinct (pair, variant, source structure) whose source has at least one incidence"
 )
 ASSUMPTIONS = [
+    "attribute names: identifiers passed as keyword arguments, plus (35 % of the networks) parameter names of the functions involved ('node', 'members', 'idx', 'edge', 'attr', 'self', "
+    "'data', 'nodes', 'edges', 'name', 'values'), non-identifiers ('my key', 'a-b', '', '1') and HIF/JSON field names ('attrs', 'incidences', 'network-type', 'metadata', ...) applied only "
+    "through set_*_attributes(dict of dicts) / net.nodes[n][k] = v / net[k] = v. Excluded, because the unchanged tree cannot carry them (probed for every name x place x class x representation): "
+    "'node'/'self' on an isolated node and 'members'/'idx'/'self' on an empty edge for HIF (from_hif_dict creates those with add_node(n, **attrs) / add_edge(members, idx, **attrs)) - never generated, "
+    "and the HIF pair is skipped when an in-place edit produces one; 'node'/'self' on any node for the standard dict (from_hypergraph_dict creates every node with add_node(n, **attrs)) - that pair is skipped and counted",
     "one network never mixes str and non-str node labels (except the collide kind, built edge by edge); no tuple labels; attribute names are identifiers that are not parameter names of add_node/add_edge",
     "inputs failing the C01/C02/C03 structural invariant are discarded and counted (invalid-start-state)",
     "applicability follows the docstrings: incidence matrix, dataframe and standard dict are driven with Hypergraph and SimplicialComplex only; "
@@ -75,8 +80,8 @@ HOW_DICT = {
 
 def plan(tier):
     if tier == "quick":
-        return {"roundtrip": 5400, "graph-order": 2400, "class": 2700, "collide": 300}
-    return {"roundtrip": 216000, "graph-order": 96000, "class": 108000, "collide": 4000}
+        return {"roundtrip": 4800, "graph-order": 2100, "class": 2400, "collide": 300}
+    return {"roundtrip": 192000, "graph-order": 84000, "class": 96000, "collide": 4000}
 
 
 PAIRS = {
@@ -94,7 +99,7 @@ def floors(tier):
     f = {}
     for p, classes in PAIRS.items():
         for c in classes:
-            f[f"pair:{p}:{c}"] = 850 * k
+            f[f"pair:{p}:{c}"] = 800 * k
     for c in C2C:
         f[f"class:{c}"] = 220 * k
     for o in ORDERS:
@@ -124,8 +129,10 @@ def floors(tier):
         "eval:max_simplices-into-complex": 840 * k,
         "variant:from_hyperedge_list:max_order-not-truncating": 270 * k,
         "variant:from_hyperedge_list:max_order-truncating": 270 * k,
-        "rejected:colliding-cast": 160 if tier == "quick" else 2400,
+        "feat:wild-attr-names": 1200 * k, "feat:node-attr-named-like-add_node-parameter": 80 * k, "feat:edge-attr-named-like-add_edge-parameter": 125 * k,
     })
+    f = {name: int(v * 0.88) for name, v in f.items()}  # (the plan was trimmed by that factor after the numbers above were taken)
+    f["rejected:colliding-cast"] = 160 if tier == "quick" else 2400
     return f
 
 
@@ -465,6 +472,9 @@ def p_hypergraph_dict(c, rng):
     nt, nmap = O.casts(rng, src.nodes, c.mon)
     et, emap = O.casts(rng, src.edges, c.mon)
     variant = f"nodetype={getattr(nt, '__name__', None)} edgetype={getattr(et, '__name__', None)}"
+    if O.stddict_unsupported(net):  # from_hypergraph_dict creates every node with add_node(n, **attrs): 'node' / 'self' cannot be attribute names there
+        c.mon.note("excluded:hypergraph_dict:node-attribute-named-like-add_node-parameter")
+        return
 
     def go():
         try:
@@ -492,6 +502,10 @@ def p_hif_dict(c, rng):
     if O.collides([nmap(x) for x in src.nodes]) or O.collides([emap(x) for x in src.edges]):
         nt, nmap, et, emap = None, O.ident, None, O.ident
     variant = f"nodetype={getattr(nt, '__name__', None)} edgetype={getattr(et, '__name__', None)}"
+
+    if O.hif_unsupported(net):  # (only reachable after an in-place edit isolated a node / emptied an edge: the generator avoids these combinations)
+        c.mon.note("excluded:hif_dict:attribute-named-like-a-parameter-on-isolated-node-or-empty-edge")
+        return
 
     def go():
         d = xgi.to_hif_dict(net)
